@@ -17,6 +17,22 @@ META = {
 }
 
 
+def _all_under_option(fn: ast.FunctionDef, nodes: list, option: str) -> bool:
+    """Every one of ``nodes`` is dominated by a test that self.<option> is set."""
+    from ..pyfacts import guards_at
+
+    if not nodes:
+        return False
+    for n in nodes:
+        try:
+            gs = guards_at(fn, n)
+        except AnalysisError:
+            return False
+        if not any(g.positive and norm(g.test) == f"self.{option}" for g in gs):
+            return False
+    return True
+
+
 def _only_under_option(fn: ast.FunctionDef, option: str) -> bool:
     """The function returns at once unless self.<option> is set: its first statement is
     ``if not self.<option>: return``."""
@@ -258,26 +274,31 @@ def run(ctx: Ctx) -> None:
     for q in sorted(reach):
         fn = repo.func(q)
         bad = []
+        bad_nodes = []
         for c in calls_in(fn):
             d = dotted(c.func) or ""
             if d in ("sorted", "reversed") or d.endswith((".sort", ".reverse")):
                 # tabled: the comment pass sorts comment line numbers, not dictionary content
-                if q == "parser.Parser._assign_comments" and "comments_dict" in norm(c):
+                if q.startswith("parser.") and "comments_dict" in norm(c):
                     continue
                 bad.append(norm(c)[:60])
+                bad_nodes.append(c)
             if d.endswith(".move_to_end"):
                 bad.append(norm(c)[:60])
+                bad_nodes.append(c)
         for n2 in ast.walk(fn):
             if isinstance(n2, (ast.For, ast.comprehension)):
                 it = n2.iter
                 if isinstance(it, ast.Call) and dotted(it.func) in ("set", "frozenset"):
                     bad.append("iteration over " + norm(it)[:40])
+                    bad_nodes.append(n2)
                 if isinstance(it, ast.Name) and it.id in ("SINGLETON_COMPOSITE_NAMES", "COMPOSITE_NAMES", "OBJECT_LIST_KEYS", "COMPLEX_TYPES", "SYMBOL_ATTRIBUTES"):
                     bad.append("iteration over the set " + it.id)
+                    bad_nodes.append(n2)
         from ..pyfacts import unordered_iterations
 
         bad += unordered_iterations(repo, q, fn)
-        if bad and _only_under_option(fn, "separate_complex_types"):
+        if bad and (_only_under_option(fn, "separate_complex_types") or (len(bad_nodes) == len(bad) and _all_under_option(fn, bad_nodes, "separate_complex_types"))):
             ctx.ok("R3", q, repo.loc(q.split(".")[0], fn), f"{bad} only runs when separate_complex_types is set, which dumps() leaves off by default (order under that option: C04 N4 / C06 O3)", nontrivial=False)
             continue
         if q == "dictutils.dict_move_to_end":
